@@ -121,6 +121,12 @@ func c43Diff(a, b map[string]any) map[string]bool {
 	if kind == "labels" && c43Flat(a["label"]) != c43Flat(b["label"]) {
 		d["label"] = true
 	}
+	if kind != "labels" && vt.Bool(a["dedup"]) != vt.Bool(b["dedup"]) {
+		d["dedup"] = true
+	}
+	if c43Set(vt.Strs(a["storem"])) != c43Set(vt.Strs(b["storem"])) {
+		d["storematchers"] = true
+	}
 	return d
 }
 
